@@ -83,6 +83,10 @@ class Builder:
             fault["sector"] = rng.choice([16, 64, 512])
         if rng.random() < 0.25:
             fault["zeros"] = rng.choice([1, 16, 64])
+        if rng.random() < 0.2:
+            # kill between the last write and the rename of a write-to-temporary-then-rename
+            # implementation (no effect on one that writes in place: the byte offset decides)
+            fault["at_rename"] = True
         return fault
 
     def read_fault(self):
@@ -204,7 +208,7 @@ def plan_serialise(seed, tier):
                     cands = [w for w in written if w[1] in HAS_READER]
                     if cands:
                         path, fmt, _h = rng.choice(cands)
-                        if nonascii_bias and rng.random() < 0.25:
+                        if rng.random() < (0.25 if nonascii_bias else 0.08):
                             # a bad medium damages one multi-byte character: the file is not
                             # UTF-8 any more and must not be read as if it were
                             b.op(op="CORRUPT", path=path, kind="utf8_break", frac=rng.random(),
@@ -724,7 +728,10 @@ def plan_third_party(seed, tier):
     limit = 400000 if tier == "quick" else 10 ** 9
     small = [c for c in files if c[1] <= limit]
     for _s in range(rng.choice([1, 1, 2])):
-        b.segment(env=_seg_env(rng), disk_cfg=b.disk_cfg(buggify), cwd=rng.choice(DIRS))
+        env = _seg_env(rng)
+        if rng.random() < 0.15:
+            env["optimize"] = True
+        b.segment(env=env, disk_cfg=b.disk_cfg(buggify), cwd=rng.choice(DIRS))
         _canary(b, rng)
         for _d in range(rng.randint(3, 9 if tier == "quick" else 20)):
             if rng.random() < (0.12 if tier == "quick" else 0.3):
@@ -814,6 +821,8 @@ def plan_third_party(seed, tier):
                 if rng.random() < 0.25:     # the same reader object asked again
                     b.op(op="READ", fmt=fmt, path=path, pathstyle=rop["pathstyle"],
                          reader="reuse")
+                if rng.random() < 0.3 and not odd:
+                    _same_size_variant(b, rng, kind, fmt, frag, facets, ref, pool, cfg, path, tags)
             elif k < 0.85 and fmt == "afm":
                 cuts = [c for c in range(1, len(text)) if peers.afm_prefix_is_invalid(text, c)]
                 if not cuts:
@@ -843,6 +852,32 @@ def plan_third_party(seed, tier):
         _canary(b, rng)
     b.plan["replicas"] = [{"env": {}, "disk_cfg": {"default_encoding": "utf-8"}}]
     return b.plan
+
+
+def _same_size_variant(b, rng, kind, fmt, frag, facets, ref, pool, cfg, path, tags):
+    """Replace a peer document by another one of exactly the same byte length that denotes a
+    different model (two equally long names swapped, requires <-> excludes, one digit of a
+    cardinality): whatever is keyed on path, size or timestamp instead of content shows here."""
+    import random as _random
+    emit = {"fide": peers.emit_fide, "fama": peers.emit_fama, "afm": peers.emit_afm,
+            "glencoe": peers.emit_glencoe}[kind]
+    eseed = rng.getrandbits(32)
+    for _try in range(6):
+        edit, new = gen.gen_edit(rng, ref, frag, pool, dict(cfg, only_kinds=["swap_names", "recard",
+                                                                             "flip_ctc"]))
+        if edit is None or edit["k"] not in ("swap_names", "recard", "flip_ctc"):
+            continue
+        t1, _ = emit(ref, _random.Random(eseed))
+        t2, _ = emit(new, _random.Random(eseed))
+        if t1 != t2 and len(t1.encode("utf-8")) == len(t2.encode("utf-8")):
+            b.op(op="PUT", path=path, fmt=fmt, b64=_b64(t1), prop="C09", tags=tags,
+                 expect={"kind": "model", "ref": rm.project(fmt, ref), "facets": facets})
+            b.op(op="READ", fmt=fmt, path=path, pathstyle="abs")
+            b.op(op="PUT", path=path, fmt=fmt, b64=_b64(t2), prop="C09",
+                 tags=tags + ["hist.same_size_replacement"],
+                 expect={"kind": "model", "ref": rm.project(fmt, new), "facets": facets})
+            b.op(op="READ", fmt=fmt, path=path, pathstyle="abs")
+            return
 
 
 def _fama_cards(ref, rng):
